@@ -285,7 +285,7 @@ class Gen:
                 return {"k": "set", "items": [self.hashable(d) for _ in range(n)]}
             return {"k": kind, "items": [self.expr(d) for _ in range(n)]}
         if name == "map":
-            keys = rng.sample(["A", "B", "S.X", "T.X", "D"], rng.choice([1, 1, 2]))
+            keys = rng.sample(["A", "B", "S.X", "S.Y", "T.X", "D"], rng.choice([1, 1, 2, 2, 3]))
             s = {"k": "map", "body": self.expr(d), "iters": [[k, self.iterable(d)] for k in keys]}
             if rng.random() < 0.3:
                 s["values"] = True
